@@ -526,7 +526,7 @@ pub fn run_worker(spec: &Spec, w: usize, nw: usize) -> WorkerOut {
                     out.stats.samples.push(json!({"program": prog.name, "history": format!("{hist:?}")}));
                 }
                 if let Some((oracle, msg, step)) = r.viol {
-                    let classified = oracle.starts_with("cycle-") || oracle.starts_with("stale-cycle") || oracle.starts_with("fallback-participant") || oracle.starts_with("specified-to-computed");
+                    let classified = oracle.starts_with("cycle-") || oracle.starts_with("stale-cycle") || oracle.starts_with("fallback-participant") || oracle.starts_with("specified-to-computed") || oracle.starts_with("struct-read-locked") || oracle.starts_with("deleted-struct-slot");
                     let sig = if classified { format!("{}:{}", spec.id, oracle) } else { format!("{}:{}:{}", spec.id, oracle, prog.name) };
                     if viol_sigs.insert(sig.clone()) {
                         out.viols.push(Viol {
